@@ -3,14 +3,14 @@
 
 def jobs(tier):
     return [dict(name='dump-load-stream', harness='c05_roundtrip.c', entry='main_c05', defines={}, timeout=900,
-                 require_tags={'end': 32}, validate=6)]
+                 require_tags={'end': 64}, validate=6)]
 
 
 BOUNDS = {
     'quick': 'table collections with 0 or 1-3 rows per table (every table kind), all fixed-width fields free 32-bit / '
              'integer-valued doubles, one double slot NaN / +inf / UNKNOWN_TIME by choice, ragged columns with empty and '
              '1-2 byte rows of symbolic bytes, top-level metadata/schema/time-units/reference-sequence symbolic bytes, '
-             'with and without (free-valued) index arrays; three objects back-to-back on one stream, then EOF',
+             'with and without (free-valued) index arrays; reference sequence with and without data; three objects back-to-back on one stream, seekable or not, then EOF',
     'thorough': 'as quick',
 }
 OUTSIDE = ['asdict/fromdict, pickle and the Python assert_equals messages (CPython API / numpy)',
